@@ -147,6 +147,8 @@ type Analyzer struct {
 	OnExternalResult func(fn *ssa.Function, site ssa.Instruction, name string, st *State, args []Term, val Term)
 	// OnStore observes stores of the entry function: the value held before and the value stored.
 	OnStore func(fn *ssa.Function, ins *ssa.Store, st *State, old, val Term)
+	// OnMake observes every make([]T, len, cap) with the state in which it executes (allocation-size rules).
+	OnMake func(fn *ssa.Function, site *ssa.MakeSlice, st *State, length, capacity Lin)
 	// OnBranch observes every conditional edge after its condition has been assumed.
 	OnBranch func(fn *ssa.Function, iff *ssa.If, taken bool, st *State)
 	// OnReturn observes every return of the entry function before return states are merged.
